@@ -158,6 +158,7 @@ class Window:
         self.dirmoves = []          # (side, old, new)
         self.nops = [0, 0]
         self.dirty = set()          # objects created or written in this window (create/mkdir/write/rename destinations)
+        self.created = [set(), set()]       # per side: paths created (create/mkdir) in this window
         self.dirty_side = [set(), set()]    # per side: objects created / written / renamed-to in this window
         self.consumed = [set(), set()]      # per side: dirty objects at the time that side's event loop last ran in this window
         self.origin = [{}, {}]      # current path -> path the object had at the start of the window (renamed objects only)
@@ -176,6 +177,9 @@ class World:
         self.path_style = path_style
         self.retired = set()        # paths consumed by conflict gadgets: never touched again
         self.guard_retouch = False  # when set: no op may touch an object created/written earlier in this window
+        # narrowed (DESIGN 9.23): a path-style side may rename a folder after it created things at least two levels
+        # below it in the same window (VERIF_DIRMOVE_EXP=0 switches the exception off: triage only)
+        self.dirmove_after_create = os.environ.get("VERIF_DIRMOVE_EXP", "1") != "0"
         self.stale_strict = False   # C14: STALE_PATHSTYLE counts every object touched in the window, consumed or not
         self.tomb_both = False      # C10: a delete leaves a tombstone on BOTH sides (a faulted engine delete may be half-recorded)
         self.crash_anywhere = False # C07 enum/batch: a crash may hit any window -> no folder rename when a side is path-style
@@ -249,6 +253,8 @@ class World:
                 for sd in (0, 1):
                     for p in win.W[sd] | win.R[sd]:
                         if under(p, a[0]) or under(p, a[1]):
+                            if self.dirmove_after_create and sd == s and self.path_style[s] and self._only_created_below(s, p, a[0]):
+                                continue
                             return "DIRMOVE_ISOLATED"
         stale = win.dirty_side[s] if self.stale_strict else win.consumed[s]
         if "STALE_PATHSTYLE" in H and self.path_style[s] and stale:
@@ -274,6 +280,17 @@ class World:
                     if under(p, pre):
                         return "XSIDE"
         return None
+
+    def _only_created_below(self, s, p, folder):
+        """p is a path this side created in this window at least two levels below `folder`, or an (untouched) ancestor
+        that such a creation merely used as its parent"""
+        win = self.win
+        deep = [c for c in win.created[s] if under(c, folder) and depth(c) >= depth(folder) + 2]
+        if p in win.created[s]:
+            return p in deep
+        if p in win.W[s]:
+            return False
+        return any(under(c, p) for c in deep) and all(under(c, folder) is False or c in deep for c in win.created[s])
 
     @staticmethod
     def _occ_type(tree, op, a, p):
@@ -315,6 +332,8 @@ class World:
         win.Wpre[s] |= Wpre
         win.vac[s] |= vac
         win.nops[s] += 1
+        if op in ("create", "mkdir"):
+            win.created[s].add(a[0])
         if op in ("create", "mkdir", "write"):
             win.dirty.add(a[0])
             win.dirty_side[s].add(a[0])
